@@ -426,12 +426,14 @@ func totalCase(rep *Report, s *glue.Subject, d MD, idx int, S uint64) {
 	setProgress(-2, idx, 1)
 	// an accepted message can be sized, marshalled, compared, cloned and ranged over
 	pan, pmsg = safely(func() {
-		sz := proto.Size(m)
-		b, e := proto.Marshal(m)
+		// AllowPartial: a message accepted with AllowPartial may lack required fields of embedded proto2 messages
+		ap := proto.MarshalOptions{AllowPartial: true}
+		sz := ap.Size(m)
+		b, e := ap.Marshal(m)
 		if e == nil && len(b) != sz {
 			panic(fmt.Sprintf("Size %d != len(Marshal) %d", sz, len(b)))
 		}
-		if _, e := detOpts.Marshal(m); e != nil && !strings.Contains(e.Error(), "UTF-8") {
+		if _, e := (proto.MarshalOptions{AllowPartial: true, Deterministic: true}).Marshal(m); e != nil && !strings.Contains(e.Error(), "UTF-8") {
 			panic("deterministic marshal error: " + e.Error())
 		}
 		c := proto.Clone(m)
